@@ -307,14 +307,18 @@ func c16Prop(c *sim.Case) {
 			Filters: []*configv1.Filter{{Type: &configv1.Filter_Oidc{Oidc: cfg}}}})
 		c.Logf("tenant %s: discovery=%v jwksFetcher=%v secretRef=%v caFile=%v", t.name, t.disc, t.dynJWKS, t.secRef, t.caFile != "")
 	}
+	// as in cmd/main.go every component is built around the configuration object before that is filled in
+	complete := full
+	full, fill := sim.LateConfig(complete)
 	tlsPool := internal.NewTLSConfigPool(ctx)
 	jwks := oidc.NewJWKSProvider(full, tlsPool)
-	go func() { _ = jwks.ServeContext(ctx) }()
 	fac := oidc.NewSessionStoreFactory(full)
+	filter := server.NewExtAuthZFilter(full, tlsPool, jwks, fac)
+	fill()
+	go func() { _ = jwks.ServeContext(ctx) }()
 	if err := fac.PreRun(); err != nil {
 		c.Violation("factory-error", "session store factory: %v", err)
 	}
-	filter := server.NewExtAuthZFilter(full, tlsPool, jwks, fac)
 	kc := fake.NewClientBuilder().Build()
 	secCtl, err := k8s.NewSecretControllerForVerification(full, "default", kc)
 	if err != nil {
